@@ -118,6 +118,12 @@ class AsyncInternalEnforcer(CoreEnforcer):
         if self.auto_build_role_links:
             self.build_role_links()
 
+    async def _notify_update(self):
+        """the generic notification; awaited when the watcher's update is a coroutine function, like the callbacks"""
+        result = self.watcher.update()
+        if inspect.isawaitable(result):
+            await result
+
     async def save_policy(self):
         if self.is_filtered():
             raise RuntimeError("cannot save a filtered policy")
@@ -132,7 +138,7 @@ class AsyncInternalEnforcer(CoreEnforcer):
                 else:
                     update_for_save_policy(self.model)
             else:
-                self.watcher.update()
+                await self._notify_update()
 
     async def _add_policy(self, sec, ptype, rule):
         """async adds a rule to the current policy."""
@@ -153,7 +159,7 @@ class AsyncInternalEnforcer(CoreEnforcer):
                     else:
                         update_for_add_policy(sec, ptype, rule)
                 else:
-                    self.watcher.update()
+                    await self._notify_update()
 
         return rule_added
 
@@ -179,7 +185,7 @@ class AsyncInternalEnforcer(CoreEnforcer):
                     else:
                         update_for_add_policies(sec, ptype, rules)
                 else:
-                    self.watcher.update()
+                    await self._notify_update()
 
         return rules_added
 
@@ -203,7 +209,7 @@ class AsyncInternalEnforcer(CoreEnforcer):
                     else:
                         update_for_update_policy(old_rule, new_rule)
                 else:
-                    self.watcher.update()
+                    await self._notify_update()
 
         return rule_updated
 
@@ -227,7 +233,7 @@ class AsyncInternalEnforcer(CoreEnforcer):
                     else:
                         update_for_update_policies(old_rules, new_rules)
                 else:
-                    self.watcher.update()
+                    await self._notify_update()
 
         return rules_updated
 
@@ -263,7 +269,7 @@ class AsyncInternalEnforcer(CoreEnforcer):
         if sec == "g":
             self.build_role_links()
         if self.watcher and self.auto_notify_watcher:
-            self.watcher.update()
+            await self._notify_update()
         return is_rule_changed
 
     async def _remove_policy(self, sec, ptype, rule):
@@ -285,7 +291,7 @@ class AsyncInternalEnforcer(CoreEnforcer):
                     else:
                         update_for_remove_policy(sec, ptype, rule)
                 else:
-                    self.watcher.update()
+                    await self._notify_update()
 
         return rule_removed
 
@@ -311,7 +317,7 @@ class AsyncInternalEnforcer(CoreEnforcer):
                     else:
                         update_for_remove_policies(sec, ptype, rules)
                 else:
-                    self.watcher.update()
+                    await self._notify_update()
 
         return rules_removed
 
@@ -334,7 +340,7 @@ class AsyncInternalEnforcer(CoreEnforcer):
                     else:
                         update_for_remove_filtered_policy(sec, ptype, field_index, *field_values)
                 else:
-                    self.watcher.update()
+                    await self._notify_update()
 
         return rule_removed
 
@@ -357,7 +363,7 @@ class AsyncInternalEnforcer(CoreEnforcer):
                     else:
                         update_for_remove_filtered_policy(sec, ptype, field_index, *field_values)
                 else:
-                    self.watcher.update()
+                    await self._notify_update()
 
         return rule_removed
 
